@@ -19,7 +19,6 @@ function tests, registered function signatures.
 from __future__ import annotations
 
 import inspect
-import itertools
 import re
 import sys
 from decimal import Decimal
@@ -983,7 +982,7 @@ def correspond(run: Run):
     run.stats.extra['function_items'] = {'built': len(W.funcs), 'skipped_outside_AST': W.func_skipped}
     # --- restriction: corpus, then random pairs (flat ones are compared with the model)
     pairs = list(corpus_types()['restr'])
-    for _ in range(run.scale(2500, 40000)):
+    for _ in range(run.scale(2500, 80000)):
         t1 = G.ty(0, want_flat=rng.random() < 0.9)
         r = rng.random()
         t2 = t1 if r < 0.05 else (G.variant(t1) if r < 0.75 else G.ty(0, rng.random() < 0.9))
@@ -997,7 +996,7 @@ def correspond(run: Run):
         restr_cases(run, pairs[i:i + 5000])
     # --- judgements
     cases = []
-    for _ in range(run.scale(2600, 30000)):
+    for _ in range(run.scale(2600, 60000)):
         ty = G.ty(0, want_flat=True)
         v = W.gen_seq()
         # bias: half of the time take a type that has a chance to match the first item
